@@ -4,6 +4,7 @@ import Log4rsModel.Routing.Tree
 import Log4rsModel.Routing.Filters
 import Log4rsModel.Pattern.Encode
 import Log4rsModel.Rolling.File
+import Log4rsModel.Json.Model
 /-
 The whole logging pipeline, composed from the per-area executable models (nothing is re-implemented
 here; every step is a call into the model file of its own area):
@@ -28,6 +29,12 @@ file untouched, the error is handed to the error handler (`FilesState.errors`) a
 namespace Log4rs.System
 open Log4rs Log4rs.Routing Log4rs.Pattern Log4rs.Pattern.Parse
 
+/-- which encoder a file appender carries (stage 2 (B)): `PatternEncoder::new(pattern)` or
+`JsonEncoder::new()` (then `pattern` is not read) -/
+inductive EncKind where
+  | pattern | json
+  deriving Repr, DecidableEq
+
 /-- one file appender as the application declares it -/
 structure SysAppender where
   /-- levels of the `ThresholdFilter`s attached to the appender, in declaration order -/
@@ -38,6 +45,7 @@ structure SysAppender where
   mode : Rolling.OpenMode
   /-- content of the file before the appender is built (`none`: the file does not exist) -/
   pre : Option Bytes
+  kind : EncKind := .pattern
 
 /-- the routing configuration plus, per appender name, the appender behind the name; and the facts
 of the platform the pattern area's model is parametric in (character classes, build profile, what
@@ -58,9 +66,43 @@ structure SysRecord where
 def SysRecord.target (r : SysRecord) : Name := r.record.target
 def SysRecord.level (r : SysRecord) : Nat := r.record.level
 
-/-- a built appender: the compiled pattern and the open `BufWriter<File>` -/
+/-- a built encoder: the compiled pattern, or the (stateless) JSON encoder -/
+inductive Encoder where
+  | pattern (cs : List Chunk)
+  | json
+
+/-- the key under which a record's environment holds the text of `Local::now()` rendered with
+`Fixed::RFC3339` (the JSON encoder's `time` member) — an environment input like every date text -/
+def jsonTimeKey : List Char := ['<', 'r', 'f', 'c', '3', '3', '3', '9', '>']
+
+/-- what the JSON encoder reads from its surroundings, taken from the record's environment facts -/
+def jsonEnv (r : SysRecord) : Json.Env :=
+  { time := r.env.dateText jsonTimeKey false, thread := r.env.threadName, threadId := r.env.threadId,
+    mdc := r.env.mdc }
+
+/-- what the JSON encoder reads from the `log::Record` (`format_args!("{}", message)`: one piece;
+C12_message_pieces_irrelevant shows the piece structure does not matter) -/
+def jsonRecord (r : SysRecord) : Json.Record :=
+  { level := (Json.Level.ofNat? r.record.level).getD .trace, pieces := [r.record.message],
+    modulePath := r.record.module, file := r.record.file, line := r.record.line, target := r.record.target }
+
+/-- the line `JsonEncoder::encode` writes for the record (Json/Model.lean, the object of C12) -/
+def jsonOf (r : SysRecord) : List Char := Json.jsonLine (jsonEnv r) (jsonRecord r)
+
+/-- `Encode::encode` into the `Vec` of `FileAppender::append`: the bytes, an `Err`, or a panic.
+`SimpleWriter(&mut Vec)` ignores style calls: the bytes of a pattern are the UTF-8 of its characters. -/
+def encodeWith (e : Encoder) (r : SysRecord) : Outcome Unit Bytes :=
+  match e with
+  | .pattern cs =>
+    match encList r.env r.record cs with
+    | .ok o => .ok (utf8 o.text)
+    | .err x => .err x
+    | .panic w => .panic w
+  | .json => .ok (utf8 (jsonOf r))
+
+/-- a built appender: its encoder and the open `BufWriter<File>` -/
 structure AppState where
-  enc : List Chunk
+  enc : Encoder
   file : Rolling.BufFile
 
 /-- the runtime appender table (in the order of `cfg.routing.appenders`) and the errors handed to
@@ -91,10 +133,13 @@ def filtersOf (sa : SysAppender) : List Filter := sa.thresholds.map Filter.thres
 
 /-- `PatternEncoder::new(pattern)` + `FileAppender::builder().append(mode).encoder(..).build(path)` -/
 def openApp (cfg : SysConfig) (a : Name) : Outcome Unit AppState :=
-  match newEncoder cfg.cc cfg.P cfg.B (cfg.app a).pattern with
-  | .ok cs => .ok { enc := cs, file := Rolling.FileAppender.build (cfg.app a).mode (cfg.app a).pre }
-  | .err e => .err e
-  | .panic w => .panic w
+  match (cfg.app a).kind with
+  | .json => .ok { enc := .json, file := Rolling.FileAppender.build (cfg.app a).mode (cfg.app a).pre }
+  | .pattern =>
+    match newEncoder cfg.cc cfg.P cfg.B (cfg.app a).pattern with
+    | .ok cs => .ok { enc := .pattern cs, file := Rolling.FileAppender.build (cfg.app a).mode (cfg.app a).pre }
+    | .err e => .err e
+    | .panic w => .panic w
 
 def openAll (cfg : SysConfig) : List Name → Outcome Unit (List (Name × AppState))
   | [] => .ok []
@@ -118,10 +163,9 @@ def sysOpen (cfg : SysConfig) : Outcome Unit FilesState :=
   | .err e => .err e
   | .panic w => .panic w
 
-/-- `FileAppender::append`: encode into memory, one `write_all`, `flush`.
-`SimpleWriter(&mut Vec)` ignores style calls: the bytes are the UTF-8 of the characters. -/
-def fileAppend (s : AppState) (o : Out) : AppState :=
-  { s with file := Rolling.FileAppender.append s.file [utf8 o.text] }
+/-- `FileAppender::append` after the encode into memory: one `write_all`, `flush` -/
+def fileAppend (s : AppState) (bytes : Bytes) : AppState :=
+  { s with file := Rolling.FileAppender.append s.file [bytes] }
 
 /-- one attachment: `appenders[idx].append(record)` = the filter chain, then the file appender -/
 def appendOne (cfg : SysConfig) (r : SysRecord) (st : FilesState) (a : Name) : Outcome Unit FilesState :=
@@ -129,7 +173,7 @@ def appendOne (cfg : SysConfig) (r : SysRecord) (st : FilesState) (a : Name) : O
   | none => .panic "appenders[idx]: index out of bounds"
   | some s =>
     if (runChain r.level (filtersOf (cfg.app a))).2 then
-      match encList r.env r.record s.enc with
+      match encodeWith s.enc r with
       | .ok o => .ok { st with apps := updApp a (fun s => fileAppend s o) st.apps }
       | .err _ => .ok { st with errors := st.errors ++ [a] }
       | .panic w => .panic w
